@@ -104,14 +104,32 @@ def _predict_rows(w, X, ncls):
 
 
 def _lab_out(i, labels):
+    if labels == "bool":
+        return bool(i)
     return i if labels == "int" else ("L%d" % i if labels == "str" else "%d" % i)
 
 
 def _lab_in(v, labels):
     if labels == "int":
         return v
+    if labels == "bool":
+        return int(v)
     s = str(v)
     return int(s[1:]) if labels == "str" else int(s)
+
+
+def _tdtype(c):
+    """dtype of the target column: classification int64/int32/bool/object(str); regression float64/float32/int64/int32/bool"""
+    td = c.get("tdtype")
+    if td:
+        return td
+    if _ncls_of(c):
+        return "int64" if c["labels"] == "int" else "object"
+    return "float64"
+
+
+def _ncls_of(c):
+    return c["learner"][1] if c["learner"][0] == "cls" else 0
 
 
 from sklearn.base import BaseEstimator, ClassifierMixin, RegressorMixin
@@ -141,7 +159,8 @@ class _Base(BaseEstimator):
         _tick()
         out = _predict_rows(self.w_, Xl, self.ncls)
         if self.ncls:
-            return np.array([_lab_out(int(v), self.labels) for v in out], dtype=object if self.labels != "int" else "int64")
+            dt = "int64" if self.labels == "int" else ("bool" if self.labels == "bool" else object)
+            return np.array([_lab_out(int(v), self.labels) for v in out], dtype=dt)
         return np.array([float(v) for v in out], dtype="float64")
 
 
@@ -176,8 +195,10 @@ def _frame(c, d):
         if i == d["tpos"]:
             if _ncls(c):
                 col = [_lab_out(int(v), c["labels"]) for v in col]
+                if c["labels"] in ("int", "bool"):
+                    col = np.array(col, dtype=_tdtype(c))
             else:
-                col = [float(v) for v in col]
+                col = np.array(col, dtype=_tdtype(c))
         cols[nm] = col
     df = pd.DataFrame(cols, columns=names)
     if d.get("labels"):
@@ -255,8 +276,13 @@ def _build(c, run=None):
 
 # ----------------------------------------------------------------------------- observation
 def _val(v, c):
-    """canonical value of a stored y: class index / exact rational; anything of an unexpected type is tagged"""
-    if _ncls(c) and c["labels"] != "int":
+    """canonical value of a stored y AS A NUMBER: class index / exact rational (bool targets: 0/1); anything of an
+    unexpected type is tagged"""
+    if isinstance(v, (bool, np.bool_)) and (_tdtype(c) == "bool"):
+        return str(int(v))
+    if isinstance(v, str) and v in ("True", "False") and _tdtype(c) == "bool":
+        return "1" if v == "True" else "0"
+    if _ncls(c) and c["labels"] not in ("int", "bool"):
         if isinstance(v, str):
             try:
                 return str(_lab_in(v, c["labels"]))
@@ -304,10 +330,7 @@ def _snapshot_hdd(path, c):
                 with open(full, newline="") as fh:
                     rows = list(csv.DictReader(fh))
                 strs = lambda col: [r[col] for r in rows]
-                if _ncls(c) and c["labels"] != "int":
-                    conv = lambda l: _vals(l, c)
-                else:
-                    conv = lambda l: "-" if not l else ",".join(show_rat(Fraction(x)) for x in l)
+                conv = lambda l: _vals(l, c)
                 recs[key] = ("%s@%s@%s" % (_ints(strs("index")), conv(strs("y_true")), conv(strs("y_pred"))), tok)
             elif ext == ".pickle":
                 obj = joblib.load(full)
@@ -417,10 +440,14 @@ def run_real(c):
             recs, strats = _snapshot_hdd(path, c) if hdd else _snapshot_ram(res, c)
             wr = ["rec:" + k for k in _changed(prev_recs, recs)] + ["str:" + k for k in _changed(prev_strats, strats)]
             prev_recs, prev_strats = recs, strats
-            master = "none"
+            master, reload_ = "none", "none"
             if hdd and os.path.isfile(os.path.join(path, "results.pickle")):
                 m = joblib.load(os.path.join(path, "results.pickle"))
                 master = "%s+%s" % (_join(sorted(m.strategy_names), ","), _join(sorted(m.dataset_names), ","))
+                # what another process reads back: a NEW results object over the path, registry from the master file
+                other = HDDResults(path)
+                other.strategy_names, other.dataset_names = list(m.strategy_names), list(m.dataset_names)
+                reload_ = _load_all(other, c, nfolds)
             out += [
                 "r%d.out=%s" % (i, outcome),
                 "r%d.calls=%s" % (i, _join(calls, "|")),
@@ -430,6 +457,7 @@ def run_real(c):
                 "r%d.master=%s" % (i, master),
                 "r%d.reg=%s+%s" % (i, _join(sorted(res.strategy_names), ","), _join(sorted(res.dataset_names), ",")),
                 "r%d.load=%s" % (i, _load_all(res, c, nfolds)),
+                "r%d.reload=%s" % (i, reload_),
             ]
     except Exception as e:  # construction problems (e.g. invalid names in a history case)
         out.append("E:setup:" + canon_err(e))
@@ -496,7 +524,7 @@ def _canon(out):
         elif sec in ("master", "reg") and v != "none":
             a, b = v.split("+")
             v = "%s+%s" % (_join(sorted([] if a == "-" else a.split(",")), ","), _join(sorted([] if b == "-" else b.split(",")), ","))
-        elif sec == "load":
+        elif sec in ("load", "reload") and v != "none":
             ents = []
             for e in ([] if v == "-" else v.split("|")):
                 fk, r = e.split("=", 1)
@@ -732,6 +760,27 @@ def oracle(c, out):
                             elif c["labels"] == "numstr" and got and "T:" in got:
                                 k = "HDDResults.load_predictions:numeric-string-labels-read-back-as-numbers"
                             fails.append((k, "run %d: load_predictions(%d, %s) = %s, stored %s" % (i, f, part, got, "&".join(exp))))
+                # ---- and so does a NEW results object over the same path that takes the names from the master file
+                mst = d.get("r%d.master" % i, "none")
+                if hdd and mst != "none":
+                    ma, mb = mst.split("+")
+                    m_s = [] if ma == "-" else ma.split(","); m_d = [] if mb == "-" else mb.split(",")
+                    reloads = d.get("r%d.reload" % i, "none")
+                    reloads = {} if reloads in ("none", "-") else dict(e.split("=", 1) for e in reloads.split("|"))
+                    for f in range(_nfolds(c)):
+                        for part in ("train", "test"):
+                            pairs = [(s, dn) for s in m_s for dn in m_d]
+                            if not pairs or not all(_key_str(c, s, dn, f, part) in recs for (s, dn) in pairs):
+                                continue
+                            exp = sorted("%s~%s~%s" % (s, dn, recs[_key_str(c, s, dn, f, part)].replace("@", "~")) for (s, dn) in pairs)
+                            got = reloads.get("%d%s" % (f, part))
+                            if got is not None and not got.startswith("E:"):
+                                got = "&".join(sorted(got.split("&")))
+                            if got != "&".join(exp):
+                                k = "load_predictions:new-results-object-differs-from-stored"
+                                if c["labels"] == "numstr" and got and "T:" in got:
+                                    k = "HDDResults.load_predictions:numeric-string-labels-read-back-as-numbers"
+                                fails.append((k, "run %d: a new HDDResults over the path gives load_predictions(%d, %s) = %s, stored %s" % (i, f, part, got, "&".join(exp))))
         prev_recs, prev_strats = recs, strats
         prev_master, prev_reg = d.get("r%d.master" % i, "none"), d.get("r%d.reg" % i, "-+-")
     # dedupe by key keeping first
@@ -760,7 +809,8 @@ def features(c, out):
                ("str" if isinstance(ri[0], str) else ("dup-int" if len(set(ri)) < len(ri) else
                ("perm-int" if sorted(ri) == list(range(len(ri))) else "other-int"))))
         _rowidx_feats.append("rowidx=" + f_ri)
-    f = _rowidx_feats + ["store=" + c["store"], "cv=" + c["cv"]["kind"] + ("-shuffle" if c["cv"].get("shuffle") else ""),
+    f = _rowidx_feats + ["target=%s/%s" % (c["learner"][0], _tdtype(c) if c["labels"] not in ("str", "numstr") else c["labels"]),
+                         "store=" + c["store"], "cv=" + c["cv"]["kind"] + ("-shuffle" if c["cv"].get("shuffle") else ""),
          "learner=" + c["learner"][0], "labels=" + c["labels"],
          "nstrat=%d" % len(c["strategies"]), "ndata=%d" % len(c["datasets"]), "nruns=%d" % len(c["runs"])]
     for i, r in enumerate(c["runs"]):
@@ -781,6 +831,43 @@ def _mk_rows(rng, n, ncols, tpos, ncls):
         r[tpos] = rng.randrange(ncls) if ncls else rng.randrange(-8, 17) / 4
         rows.append(r)
     return rows
+
+
+def _apply_tdtype(c, td):
+    """give the target column dtype `td`; integer / bool targets get integral values, so that a regressor's
+    fractional predictions differ from anything representable in the target's dtype"""
+    ncls = _ncls_of(c)
+    if td is None:
+        return c
+    c = dict(c, tdtype=td)
+    if ncls:
+        if td == "bool":
+            c["labels"] = "bool"
+        return c
+    dss = []
+    for d in c["datasets"]:
+        rows = []
+        for r in d["rows"]:
+            r = list(r)
+            v = r[d["tpos"]]
+            if td in ("int64", "int32"):
+                r[d["tpos"]] = int(round(v * 4))
+            elif td == "bool":
+                r[d["tpos"]] = int(round(v * 4)) % 2
+            rows.append(r)
+        dss.append(dict(d, rows=rows))
+    c["datasets"] = dss
+    return c
+
+
+def _pick_tdtype(rng, ncls, labels):
+    if ncls == 0:
+        return rng.choice([None, "float32", "float32", "int64", "int64", "int32", "bool"])
+    if labels != "int":
+        return None
+    if ncls == 2 and rng.random() < 0.3:
+        return "bool"
+    return rng.choice([None, "int64", "int32"])
 
 
 def _rowidx(rng, n, kind=None):
@@ -847,11 +934,11 @@ def _small_configs(rng, tier):
                  "strategies": [{"name": "s0", "p": 1}, {"name": "s1", "p": 2}],
                  "cv": {"kind": "kfold", "k": 2}})
     # B: 1 strategy x 2 datasets x single split (regression)
-    cfgs.append({"store": "hdd", "learner": ["reg"], "labels": "int",
+    cfgs.append(_apply_tdtype({"store": "hdd", "learner": ["reg"], "labels": "int",
                  "datasets": [_dataset(rng, "da", 5, 2, 0, explicit=False, rowidx="gaps"),
                               _dataset(rng, "db", 4, 3, 0, explicit=True, rowidx="str")],
-                 "strategies": [{"name": "only", "p": -2}],
-                 "cv": {"kind": "single", "t": 2}})
+                 "strategies": [{"name": "only", "p": -1}],
+                 "cv": {"kind": "single", "t": 2}}, "int64"))   # integer target, fractional predictions
     # C: 2 strategies x 1 dataset, pre-split files + inner 2-fold
     cfgs.append({"store": "hdd", "learner": ["cls", 2], "labels": "str",
                  "datasets": [_dataset(rng, "p0", 5, 2, 2, presplit=True, explicit=False)],
@@ -859,10 +946,10 @@ def _small_configs(rng, tier):
                  "cv": {"kind": "presplit", "k": 2}})
     if tier == "thorough":
         # D: 2 strategies x 2 datasets x 3-fold
-        cfgs.append({"store": "hdd", "learner": ["reg"], "labels": "int",
+        cfgs.append(_apply_tdtype({"store": "hdd", "learner": ["reg"], "labels": "int",
                      "datasets": [_dataset(rng, "d0", 6, 3, 0, rowidx=False), _dataset(rng, "d1", 7, 2, 0, rowidx="permoff")],
-                     "strategies": [{"name": "s0", "p": 1}, {"name": "s1", "p": 5}],
-                     "cv": {"kind": "kfold", "k": 3}})
+                     "strategies": [{"name": "s0", "p": 1}, {"name": "s1", "p": 4}],
+                     "cv": {"kind": "kfold", "k": 3}}, "int32"))
     return cfgs
 
 
@@ -936,6 +1023,7 @@ def _random_case(rng):
     c = {"kind": "hist", "store": store, "learner": ["cls", ncls] if ncls else ["reg"],
          "labels": rng.choice(["int", "int", "str"]) if ncls else "int",
          "datasets": dss, "strategies": [{"name": nm, "p": rng.randrange(-3, 8)} for nm in snames], "cv": cv}
+    c = _apply_tdtype(c, _pick_tdtype(rng, ncls, c["labels"]))
     runs = []
     pot0 = rng.random() < 0.4
     saveF0 = rng.random() < 0.7 if store == "hdd" else rng.random() < 0.1
